@@ -180,6 +180,12 @@ impl SimNet {
         })
     }
 
+    /// virtual microseconds since the start of the run of a std instant taken from the tokio clock
+    pub fn us_of(&self, t: std::time::Instant) -> u64 {
+        let start = self.inner.lock().start.into_std();
+        t.saturating_duration_since(start).as_micros() as u64
+    }
+
     pub fn now_us(&self) -> u64 {
         let g = self.inner.lock();
         (tokio::time::Instant::now() - g.start).as_micros() as u64
